@@ -42,6 +42,38 @@ def lt_edges(cfg, want=True):
     return cfg.bool_edges(pred, want)
 
 
+def promotions(facts, b):
+    """Universe promotions an OccursCheck callback performs: direct `unify_var_value(v, value)` calls, or - one level down - a call to
+    an inherent OccursCheck helper whose body makes that call on one of its parameters.
+    -> [{"var": expression (in the callback's terms), "value": expression, "helper": Body or None, "call": node}]"""
+    out = []
+    for t in thir_all_(facts, b):
+        for c in calls(t):
+            if callee_matches(c, BIND) or str(c.get("fn", "")).endswith("unify_var_value"):
+                if len(c.get("args", [])) > 2:
+                    out.append({"var": c["args"][1], "value": c["args"][2], "helper": None, "call": c})
+                continue
+            name = c.get("res") or c.get("fn") or ""
+            if "OccursCheck::" in name and " as " not in name:
+                hb = facts.body(name)
+                if hb is None or hb.thir is None:
+                    continue
+                params = [p.get("n") if isinstance(p, dict) else None for p in (hb.d.get("thir_params") or [])]
+                for hc in calls(facts.thir(name)):
+                    if (callee_matches(hc, BIND) or str(hc.get("fn", "")).endswith("unify_var_value")) and len(hc.get("args", [])) > 2:
+                        pv = var_name(peel(hc["args"][1]))
+                        if pv in params and params.index(pv) < len(c.get("args", [])):
+                            out.append({"var": c["args"][params.index(pv)], "value": hc["args"][2], "helper": hb, "call": c})
+                        else:
+                            out.append({"var": None, "value": hc["args"][2], "helper": hb, "call": c})
+    return out
+
+
+def thir_all_(facts, b):
+    from kit import thir_all
+    return thir_all(facts, b)
+
+
 def occurs_before_bind(ck, facts, R):
     """Shared with C28: the occurs check is also where a binding's universes are checked (a placeholder the variable cannot name is
     rejected, a younger variable is promoted) - a binding that bypasses it can put an unnameable universe into a solution."""
@@ -107,8 +139,11 @@ def run(ck, facts, tier):
     sites = cg.callers_of(lambda k: k == BIND)
     ck.floor(R, "unify_var_value-sites", len(sites), 5)
     for k, blk, t in sites:
+        callers_k = {c2.split("::{")[0] for c2, _b2, _t2 in cg.callers_of(lambda kk, k_=k: kk == k_, through_helpers=False)}
         if k in BIND_TABLE:
             ck.ok(R, short(k), BIND_TABLE[k])
+        elif callers_k and all(c2 in BIND_TABLE for c2 in callers_k) and not cg.bodies[k].d.get("pub"):
+            ck.ok(R, short(k), "private helper called only from audited binding sites (%s)" % ", ".join(sorted(short(c2).split("::")[-1] for c2 in callers_k)))
         else:
             ck.violation(R, short(k), cg.bodies[k].where(t.get("ln")), "new variable-binding site outside the audited table "
                          "(is the value occurs-checked and universe-checked?)")
@@ -123,10 +158,20 @@ def run(ck, facts, tier):
         if not b:
             continue
         cfg = b.cfg
-        guard_sites(ck, R, b, cfg.call_blocks(BIND), lt_edges(cfg, True), "promotion", "self.universe_index < ui")
-        bind = [c for c in calls(b.thir, BIND)]
-        okv = bool(bind) and all(any(n.get("k") == "adt" and n.get("v") == "Unbound" and mentions_field(n, "universe_index")
-                                    for n in walk(c["args"][2])) for c in bind)
+        proms = promotions(facts, b)
+        helpers = {p_["helper"].key: p_["helper"] for p_ in proms if p_["helper"] is not None}
+        sites = cfg.call_blocks(BIND) + [blk for hk in helpers for blk in cfg.call_blocks(hk)]
+        lt = lt_edges(cfg, True)
+        if lt:
+            guard_sites(ck, R, b, sites, lt, "promotion", "self.universe_index < ui")
+        else:
+            # the comparison moved into the helper together with the binding
+            for hk, hb in helpers.items():
+                guard_sites(ck, R, hb, hb.cfg.call_blocks(BIND), lt_edges(hb.cfg, True), "promotion", "self.universe_index < ui")
+            if not helpers:
+                ck.violation(R, "try_fold_inference_%s:promotion-guard" % kind, b.where(), "no `self.universe_index < ui` test found")
+        okv = bool(proms) and all(any(n.get("k") == "adt" and n.get("v") == "Unbound" and mentions_field(n, "universe_index")
+                                     for n in walk(p_["value"])) for p_ in proms)
         if okv:
             ck.ok(R, "try_fold_inference_%s:value=Unbound(self.universe_index)" % kind)
         else:
